@@ -35,7 +35,7 @@ RULE = ('case = (config, construction route, seed, action-index sequence, repres
         'least one terminated episode or a representation switch; distinct by (config, route, seed).')
 ASSUMPTIONS = ['twin built from the same file with the same seed consumes randomness in the same order (reset+observation, step+observation)']
 REQUIRED = {'quick': {'steps.checked': 4000, 'resets.checked': 100, 'index_mapping.checked': 4000, 'switches.checked': 40,
-                      'state_wrapper.steps': 500, 'route.direct': 20, 'route.entry_point': 20, 'route.gym_make': 20, 'resets.back_to_back': 100}}
+                      'state_wrapper.steps': 500, 'route.direct': 20, 'route.entry_point': 20, 'route.gym_make': 20, 'resets.back_to_back': 100, 'steps.after_terminal': 20}}
 
 
 def same_dict(a, b):
@@ -192,7 +192,10 @@ def run_route(ctx, route, name, path, seed, nsteps):
                                   'gym_case', payload)
         i = rng.randrange(n_actions)
         spy.actions.clear()
-        ok, res = call_real(env.step, i)
+        # the index may arrive as any integer member of Discrete(n): Python int, numpy scalar, 0-d array
+        i_given = [i, np.int64(i), np.int32(i), np.array(i), np.array(i, dtype=np.int8)][t % 5]
+        ctx.hit('index_type.' + type(i_given).__name__ + (str(getattr(i_given, 'ndim', '')) if isinstance(i_given, np.ndarray) else ''))
+        ok, res = call_real(env.step, i_given)
         ctx.ev()
         ctx.hit('steps.checked')
         if not ok:
@@ -216,6 +219,12 @@ def run_route(ctx, route, name, path, seed, nsteps):
                           'gym_case', payload)
         if not check_obs(got, o, 'step'):
             return
+        if d2 and t % 3 == 0:
+            # keep stepping after a terminal step without a reset (the inner environment allows it): the flag reported by the
+            # gym layer must be the inner flag of *that* step
+            features.add('step_after_terminal')
+            ctx.hit('steps.after_terminal')
+            continue
         if d2:
             features.add('episode_end')
             ok, got = call_real(env.reset)
